@@ -35,7 +35,7 @@
 (***************************************************************************)
 EXTENDS ParserSM, HPHash, Json
 
-CONSTANTS Alpha, Scope, MaxInp, MaxWrite, EmitOps,
+CONSTANTS Alpha, Scope, MaxInp, MaxWrite, EmitOps, EmitEvery,
           Backward   \* TRUE: the backward extending variant BHP (bhp.go), FALSE: HP
 
 (* configurations explored (BufferSize, ShrinkSize, WindowSize, BlockSize,  *)
@@ -212,5 +212,8 @@ AbsInv ==
   /\ Len(data) <= cf.B
 Inv == TableSound /\ Unused /\ ResetClean /\ AbsInv /\ PStateOk(st)
 
-Emit == EmitOps => PrintT(<<"VERIF_OPS", ToJson(ops')>>)
+(* history output: every transition in the small scopes, a random sample    *)
+(* (one in EmitEvery) in the large ones - the model check itself always     *)
+(* covers the whole scope                                                    *)
+Emit == EmitOps => ((EmitEvery = 1 \/ RandomElement(1..EmitEvery) = 1) => PrintT(<<"VERIF_OPS", ToJson(ops')>>))
 =============================================================================
